@@ -750,6 +750,66 @@ package gocql
 //@   ensures result2 == nil ==> forall(k, 0 <= k && k < len(p.Username), result0[1+k] == p.Username[k]) && forall(k, 0 <= k && k < len(p.Password), result0[2+len(p.Username)+k] == p.Password[k])
 
 // ---------------------------------------------------------------------------
+// conn.go: write path (C07). flush distributes the byte count returned by the
+// vectored write over the coalesced frames: for EVERY split point n0 a caller is
+// told success iff its whole frame lies inside the first n0 bytes.
+// psum(buffers,k) = total length of the first k frames (spec/int.smt2).
+// ---------------------------------------------------------------------------
+
+//@ func (w *writeCoalescer) flush
+//@   props C07
+//@   mode int
+//@   count_calls WriteTo SetWriteDeadline
+//@   requires len(resultChans) == len(buffers) && w.c != nil
+//@   requires forall(i, 0 <= i && i < len(resultChans), resultChans[i] != nil)
+//@   requires forall(i, 0 <= i && i < len(resultChans), forall(j, i < j && j < len(resultChans), resultChans[i] != resultChans[j]))
+//@   requires forall(k, 0 <= k && k < len(buffers), len(buffers[k]) > 0)
+// consequence of the pairwise distinctness above (Skolem function), stated for the benefit of the solver
+//@   assume forall(k, 0 <= k && k < len(resultChans), chanidx(resultChans[k]) == k, resultChans[k])
+//@   use psum_base_ax(buffers)
+//@   use_before WriteTo: psum_ext_ax(buffers2, buffers, len(buffers))
+// deadline could not be set: nothing is written, everybody gets (0, err)
+//@   ensures SetWriteDeadline_calls == 1 && SetWriteDeadline_ret0 != nil ==> WriteTo_calls == 0 && forall(k, 0 <= k && k < len(resultChans), sent(resultChans[k]) == 1 && sentval(resultChans[k]).n == 0 && sentval(resultChans[k]).err == SetWriteDeadline_ret0)
+// otherwise exactly one vectored write; frame k is reported written iff it ends within the n0 bytes written
+//@   ensures !(SetWriteDeadline_calls == 1 && SetWriteDeadline_ret0 != nil) ==> WriteTo_calls == 1 && 0 <= WriteTo_ret0 && WriteTo_ret0 <= psum(buffers, len(buffers)) && (WriteTo_ret0 < psum(buffers, len(buffers)) ==> WriteTo_ret1 != nil)
+//@   ensures !(SetWriteDeadline_calls == 1 && SetWriteDeadline_ret0 != nil) ==> forall(k, 0 <= k && k < len(buffers), sent(resultChans[k]) == 1)
+//@   ensures !(SetWriteDeadline_calls == 1 && SetWriteDeadline_ret0 != nil) ==> forall(k, 0 <= k && k < len(buffers), psum(buffers, k+1) <= WriteTo_ret0 ==> sentval(resultChans[k]).n == len(buffers[k]) && sentval(resultChans[k]).err == nil)
+//@   ensures !(SetWriteDeadline_calls == 1 && SetWriteDeadline_ret0 != nil) ==> forall(k, 0 <= k && k < len(buffers), psum(buffers, k+1) > WriteTo_ret0 ==> sentval(resultChans[k]).n == max(WriteTo_ret0 - psum(buffers, k), 0) && sentval(resultChans[k]).err == WriteTo_ret1 && WriteTo_ret1 != nil)
+//@   loop 0: invariant SetWriteDeadline_calls == 1 && WriteTo_calls == 0 && -1 <= rangeindex && rangeindex < len(resultChans) + 0
+//@   loop 0: invariant forall(k, 0 <= k && k <= rangeindex, sent(resultChans[k]) == 1 && sentval(resultChans[k]).n == 0 && sentval(resultChans[k]).err == SetWriteDeadline_ret0)
+//@   loop 0: invariant forall(k, rangeindex < k && k < len(resultChans), sent(resultChans[k]) == 0, resultChans[k])
+//@   loop 1: use psum_step_ax(buffers, rangeindex+1)
+//@   loop 1: use psum_mono_ax(buffers, rangeindex+2, len(buffers))
+//@   loop 1: invariant WriteTo_calls == 1 && !(SetWriteDeadline_calls == 1 && SetWriteDeadline_ret0 != nil) && -1 <= rangeindex && rangeindex < len(buffers) + 0
+//@   loop 1: invariant 0 <= WriteTo_ret0 && WriteTo_ret0 <= psum(buffers, len(buffers)) && (WriteTo_ret0 < psum(buffers, len(buffers)) ==> WriteTo_ret1 != nil)
+//@   loop 1: invariant n == max(WriteTo_ret0 - psum(buffers, rangeindex+1), 0)
+//@   loop 1: invariant forall(k, 0 <= k && k <= rangeindex, sent(resultChans[k]) == 1)
+//@   loop 1: invariant forall(k, 0 <= k && k <= rangeindex, psum(buffers, k+1) <= WriteTo_ret0 ==> sentval(resultChans[k]).n == len(buffers[k]) && sentval(resultChans[k]).err == nil)
+//@   loop 1: invariant forall(k, 0 <= k && k <= rangeindex, psum(buffers, k+1) > WriteTo_ret0 ==> sentval(resultChans[k]).n == max(WriteTo_ret0 - psum(buffers, k), 0) && sentval(resultChans[k]).err == WriteTo_ret1 && WriteTo_ret1 != nil)
+//@   loop 1: invariant forall(k, rangeindex < k && k < len(resultChans), sent(resultChans[k]) == 0)
+
+// Direct writer: at most one Write, with the whole frame, inside the semaphore; nothing is
+// written when the context ended or the connection was closed before the semaphore was taken.
+// (io.Writer contract assumed for net.Conn: n < len(p) => err != nil.)
+//@ func (c *deadlineContextWriter) writeContext
+//@   props C07
+//@   count_calls Write SetWriteDeadline Err
+//@   requires ctx != nil && c.w != nil
+//@   assume ErrConnectionClosed != nil
+//@   before Write: arg0 == p
+//@   ensures Write_calls <= 1 && (Write_calls == 1 ==> result0 == Write_ret0 && result1 == Write_ret1)
+//@   ensures Write_calls == 0 ==> result0 == 0
+//@   ensures result1 == nil ==> (Write_calls == 1 && Write_ret1 == nil) || (Err_calls == 1 && Err_ret0 == nil)
+
+// Coalescing writer: never touches the connection itself; either hands the frame to the flusher
+// or reports the context / quit error with n == 0.
+//@ func (w *writeCoalescer) writeContext
+//@   props C07
+//@   count_calls Write WriteTo Err
+//@   requires ctx != nil
+//@   ensures Write_calls == 0 && WriteTo_calls == 0
+
+// ---------------------------------------------------------------------------
 // uuid.go (RFC 4122; oracle in /verif/spec/bv.smt2 blocks uuid, hex)
 // ---------------------------------------------------------------------------
 
